@@ -150,6 +150,8 @@ type keyEntry struct {
 	Ty   int // static type id; 0 = any
 	Key  errdef.FieldKey
 	Opt  func(v any) errdef.Option
+	// KeyFn asks the constructor for its key again (FieldConstructor.Key()); nil for wrapped built-in keys
+	KeyFn func() errdef.FieldKey
 	// extractor forms (C03)
 	Ext        func(err error) (any, bool)
 	OrZero     func(err error) any
@@ -178,6 +180,7 @@ func mkKey[T any](name string, ty int) keyEntry {
 	}
 	var zero T
 	return keyEntry{Name: name, Ty: ty, Key: ctor.Key(), Zero: zero, StaticType: reflect.TypeOf((*T)(nil)).Elem(),
+		KeyFn:      func() errdef.FieldKey { return ctor.Key() },
 		Opt:        func(v any) errdef.Option { return ctor(conv(v)) },
 		Ext:        func(err error) (any, bool) { v, ok := ext(err); return v, ok },
 		OrZero:     func(err error) any { return ext.OrZero(err) },
